@@ -13,4 +13,19 @@ VERIF_REPO="$wt" VERIF_EVIDENCE_DIR="$ev" VERIF_REPLAY_DIR="$ev" /verif/check "$
 rc=$?
 viol=$(grep -A1 '^VIOLATION' "$ev/out.txt" | grep clause | head -3 | tr '\n' ';')
 echo "SEED $id-$x: demo clean=$clean patched=$patched tests=[$tests] check($chk) rc=$rc $viol"
+if [ "$clean" = 0 ] && [ "$patched" = 1 ] && echo "$tests" | grep -q '^46 passed $'; then
+  dst="/verif/seeded/$id-$x"; mkdir -p "$dst"
+  [ "$src" = "$dst" ] || cp "$src/patch.diff" "$src/demo.py" "$src/meta.json" "$dst/"
+  /venv/bin/python - "$dst/meta.json" "$chk" "$rc" "$viol" <<'PY'
+import json, sys
+p, chk, rc, viol = sys.argv[1:5]
+m = json.load(open(p))
+c = m.setdefault("confirmed", {})
+c["demo"] = "exit 0 on a clean worktree of /repo HEAD, exit 1 with patch.diff applied"
+c["pinned_tests_with_patch"] = "46 passed"
+c.setdefault("checks", {})[chk] = {"cmd": "VERIF_REPO=<worktree+patch> ./check %s --tier quick" % chk, "exit": int(rc),
+                                   "detected": int(rc) == 1, "violations": viol}
+json.dump(m, open(p, "w"), indent=1)
+PY
+fi
 git -C /repo worktree remove --force "$wt"; rm -rf "$ev"
